@@ -24,17 +24,20 @@ def drivers(tier):
         d['fine-depth'] = (WorldDriver(
             'fine-depth', own='Q', ids=(1, 2), explicit_ids=(1, 2),
             max_autos=1, coarse=False), dict(max_depth=3))
-        # handler components whose lifecycle callbacks issue every query
+        # handler components whose lifecycle callbacks issue every query;
+        # order-preserving key: what a callback sees depends on the order in
+        # which the components of one entity are walked
         d['queries-from-callbacks'] = (WorldDriver(
             'queries-from-callbacks', own='Q', types=('A', 'H'), ids=(1, 2),
-            explicit_ids=(1,), max_autos=1,
+            explicit_ids=(1,), max_autos=1, coarse=False,
             shapes=((), ('A',), ('H',), ('A', 'H'))),
             dict(max_states=250000, time_budget=240))
     else:
         d['queries-from-callbacks'] = (WorldDriver(
             'queries-from-callbacks', own='Q', types=('A', 'B', 'H'),
-            ids=(1, 2), explicit_ids=(1, 2), max_autos=1,
-            shapes=((), ('A',), ('H',), ('A', 'H'), ('B', 'H'))), {})
+            ids=(1, 2), explicit_ids=(1, 2), max_autos=1, coarse=False,
+            shapes=((), ('A',), ('H',), ('A', 'H'), ('B', 'H'))),
+            dict(max_states=1500000, time_budget=1200))
         d['coarse-fixpoint'] = (WorldDriver(
             'coarse-fixpoint', own='Q', ids=(1, 2, 3), explicit_ids=(1, 2),
             max_autos=2), {})
